@@ -90,6 +90,25 @@ pub fn section_idx(s: Section) -> u8 {
     }
 }
 
+/// the recognised section headers, written out here rather than asked of the crate (`Section::try_from_line` is part of
+/// what is being checked: a header missing from its table must not go unnoticed)
+pub fn ref_section(line: &str) -> Option<Section> {
+    Some(match line {
+        "[General]" => Section::General,
+        "[Editor]" => Section::Editor,
+        "[Metadata]" => Section::Metadata,
+        "[Difficulty]" => Section::Difficulty,
+        "[Events]" => Section::Events,
+        "[TimingPoints]" => Section::TimingPoints,
+        "[Colours]" => Section::Colors,
+        "[HitObjects]" => Section::HitObjects,
+        "[Variables]" => Section::Variables,
+        "[CatchTheBeat]" => Section::CatchTheBeat,
+        "[Mania]" => Section::Mania,
+        _ => return None,
+    })
+}
+
 /// Independent transcription of the property statement (C05), working on the
 /// text: BOM → split on LF → trim end → version → skip to first header → fold.
 /// Only valid UTF-8 (optionally with UTF-8 BOM) inputs are judged; others return `SKIP`.
@@ -140,7 +159,7 @@ pub fn spec_frame_text(text: &str) -> (i32, Vec<(u8, String)>) {
     let mut calls = Vec::new();
     let mut section: Option<Section> = None;
     for l in &lines[i.min(lines.len())..] {
-        if let Some(s) = Section::try_from_line(l) {
+        if let Some(s) = ref_section(l) {
             // a comment line can never be a header; a blank neither
             section = Some(s);
             continue;
@@ -173,7 +192,7 @@ pub fn spec_frame_idx(lines: &[String]) -> Option<Vec<usize>> {
     let mut calls = Vec::new();
     let mut in_section = false;
     for (k, l) in ls.iter().enumerate().skip(i) {
-        if Section::try_from_line(l).is_some() {
+        if ref_section(l).is_some() {
             in_section = true;
             continue;
         }
